@@ -1,13 +1,16 @@
 SPECIFICATION MCSpec
 CONSTANTS
+  FifoLock = TRUE
   Types = {"T1", "T2"}
   Procs = {1}
   Fns = {"f0", "f1"}
   Vals = {"a", "b"}
   Ctxs = {}
+  PubCtxs = {"bg"}
   Profiles <- c01Profiles
   Cfgs <- c01Cfgs
   TopKinds = {"sub", "unsub", "clear", "clearall", "count", "pub", "wait"}
+  Roles <- allRoles
   MaxReg = 2
   MaxPub = 1
   MaxTop = 0
